@@ -6,6 +6,7 @@ import QuiverModel.Lemmas.Packaging.Inject
 import QuiverModel.Lemmas.Packaging.Nested
 import QuiverModel.Lemmas.Packaging.Canon
 import QuiverModel.Lemmas.Packaging.Mark
+import QuiverModel.Lemmas.Packaging.Reach
 import QuiverModel.Core.Packaging.Merge
 /-
 C10 — packaging steps preserve behaviour (property theorems).
@@ -671,6 +672,30 @@ theorem treeShake_keeps_everything_reachable {P : Prog} {e : Nat} {out : ShakeOu
       · cases h
     rw [hmarks]
     exact ⟨by rw [hr], hc⟩
+
+/-- the marks a successful shake reports are the marks `markAll` computed -/
+theorem treeShake_marks {P : Prog} {e : Nat} {out : ShakeOut} (h : treeShake P e = some out) :
+    markAll P e false = some out.marks := by
+  unfold treeShake treeShakeWith at h
+  split at h
+  · cases h
+  · rename_i m hm
+    have hmarks : out.marks = m := by
+      simp only [sweep] at h
+      split at h
+      · split at h
+        · cases h
+        · cases h; rfl
+      · cases h
+    rw [hmarks]; exact hm
+
+/-- **(T3 ⊆) Everything kept is reachable** — the converse invariant of the mark phase: every function,
+    constant, tuple, type, builtin and resource name that `tree_shake` keeps is justified by a reference
+    path from the entry, the NIL / OK tuples, or the index-only rule (`Reach`, Lemmas/Packaging/Reach.lean);
+    for every program and entry. -/
+theorem treeShake_keeps_only_reachable {P : Prog} {e : Nat} {out : ShakeOut} (h : treeShake P e = some out) :
+    Just P e out.marks :=
+  markAll_just (treeShake_marks h)
 
 /-- A spawning program in miniature: the entry spawns function 1, whose callable type (entry 1) receives
     and returns `'int`; the process type of the pids it creates is entry 2 — named by no instruction
